@@ -187,6 +187,9 @@ class _EvalConstraintsLoop:
         env["self"].fields["_checks_made"] = cx.int("checks_made")
         l, t = env["constraints"].ghost["ident"], env["individual"].ident
         allok_unfold(cx, l, t, idx_term(i))
+        if Evaluator_evaluate_constraints_real.active():
+            from pyvc.values import add_anchor
+            add_anchor(cx, int_to_fp(idx_term(i)) + 1 - fp(GAP1), G + 1, "i_plus_1_minus_gap")
 
     @staticmethod
     def inv(cx, env, i):
@@ -239,6 +242,19 @@ class Evaluator_evaluate_constraints(Contract):
             ("in_unit_interval", And(fge(f, 0.0), fle(f, 1.0))),
             ("below_one_has_gap", Implies(Not(feq(f, 1.0)), fle(f, 1.0 - GAP2))),
         ]
+
+
+@register
+class Evaluator_evaluate_constraints_real(Evaluator_evaluate_constraints):
+    """same function in the relaxed float model (fast); the ieee instance above is the exact one"""
+    key = "evolution/evaluation.py:Evaluator._evaluate_constraints@real"
+    float_mode = "real"
+    anchors = (1.0 - 2.0 ** -G, 1.0, 1.0 - GAP2)
+
+    @staticmethod
+    def active():
+        from pyvc.values import FloatMode
+        return FloatMode.mode == "real"
 
 
 @register
